@@ -121,6 +121,10 @@ func (m *Machine) call(fn *ssa.Function, args []Value, free []Value, depth int) 
 	if fn.Pkg != nil && m.isExternalPkg(fn.Pkg.Pkg.Path()) {
 		return m.externalCall(fn, args)
 	}
+	if _, ok := m.contracts[fn.String()]; ok {
+		// a function of the repository summarised by a stated contract (leaf kernels verified by their own harnesses)
+		return m.externalCall(fn, args)
+	}
 	if fn.Pkg == nil && fn.Origin() != nil && fn.Origin().Pkg != nil && m.isExternalPkg(fn.Origin().Pkg.Pkg.Path()) {
 		return m.externalCall(fn, args)
 	}
@@ -603,6 +607,16 @@ func (m *Machine) mergeVals(gs []*Cond, vals []Value) Value {
 			inner = m.mergeVals(cg, col)
 		}()
 		return IfaceV{typ: typ, v: inner, nilc: nilc}
+	}
+	if _, isSlice := vals[0].(SliceV); isSlice && m.approxBits {
+		// effect harnesses: a merged slice value is only passed on, never written through; keep the first non-nil one
+		m.stats["approx_slice_merge"]++
+		for _, v := range vals {
+			if v.(SliceV).arr != nil {
+				return v
+			}
+		}
+		return vals[0]
 	}
 	panic(fmt.Sprintf("cannot merge values of type %T", vals[0]))
 }
